@@ -22,6 +22,7 @@ Cfg(base, bs, ns, live, prog) == [base |-> base, bs |-> bs, slots |-> 0..(ns - 1
 Cfg_1p2c == { Cfg(0, 2, 4, TRUE, << <<S(1), S(2), S(3), J(1), CL, J(2), J(3)>>, <<P(1), P(2)>>, <<C(3), C(1)>>, <<C(2), C(2)>> >>) }
 \* the last publish races with close: the publisher closes itself right after its batch
 Cfg_selfclose == { Cfg(0, 2, 4, TRUE, << <<S(1), S(2), S(3), J(1), J(2), J(3)>>, <<Q(1), Q(2), CL>>, <<C(1), C(3)>>, <<C(3), C(2)>> >>) }
+Cfg_selfclose1 == { Cfg(0, 2, 4, TRUE, << <<S(1), S(2), J(1), J(2)>>, <<Q(1), Q(2), CL>>, <<C(1), C(3)>> >>) }
 \* two concurrent publishers (single + batch 2), one consumer
 Cfg_2p1c == { Cfg(0, 2, 4, TRUE, << <<S(1), S(2), S(3), J(1), J(2), CL, J(3)>>, <<P(1)>>, <<P(2)>>, <<C(2), C(2)>> >>) }
 \* two publishers, two consumers, 2 items
@@ -31,13 +32,15 @@ Cfg_cycle == { Cfg(1, 2, 4, TRUE, << <<S(1), S(2), J(1), J(2), CLR, S(3), S(4), 
                Cfg(0, 2, 3, TRUE, << <<Q(1), S(1), CL, J(1), CLR, S(2), P(1), CL, J(2), CLR>>, <<C(1), C(1)>>, <<SUB, C(2)>> >>) }
 \* no close: the consumer must stay blocked (never returns short)
 Cfg_block == { Cfg(0, 2, 3, FALSE, << <<S(1), S(2), J(1), J(2)>>, <<P(1)>>, <<C(2)>> >>) }
-Cfg_dbg == Cfg_2p2c
-Cfg_quick == Cfg_selfclose \cup Cfg_2p1c \cup Cfg_cycle \cup Cfg_block
-Cfg_sc2 == Cfg_1p2c \cup Cfg_2p2c
+Cfg_dbg == Cfg_selfclose1
+Cfg_quick == Cfg_selfclose1 \cup Cfg_2p1c \cup Cfg_cycle \cup Cfg_block
+Cfg_sc2 == Cfg_1p2c \cup Cfg_2p2c \cup Cfg_selfclose
 
 \* ---- weak-memory families (Stale = TRUE): waker Dekker pattern + publication ----
 Cfg_wm == { Cfg(0, 2, 3, TRUE, << <<S(1), S(2), J(1), CL, J(2)>>, <<P(1)>>, <<C(1), C(1)>> >>),
             Cfg(0, 2, 3, TRUE, << <<S(1), S(2), J(1), J(2)>>, <<Q(1), CL>>, <<C(2)>> >>) }
+\* liveness (tiny): publisher + sleeping consumer + close by main
+Cfg_live == { Cfg(0, 2, 3, TRUE, << <<S(1), S(2), J(1), CL, J(2)>>, <<P(1)>>, <<C(2), C(1)>> >>) }
 Cfg_wm2 == { Cfg(1, 2, 4, TRUE, << <<S(1), S(2), J(1), J(2)>>, <<Q(2), CL>>, <<C(3)>> >>),
              Cfg(0, 2, 3, TRUE, << <<S(1), S(2), S(3), J(1), J(2), CL, J(3)>>, <<P(1)>>, <<P(1)>>, <<C(2), C(1)>> >>) }
 
@@ -64,7 +67,8 @@ Next == \/ /\ LocalSet # {}
 FullNext == (\E t \in Thr : Step(t, MOf)) \/ (AllDone /\ UNCHANGED vars)
 FullSpec == Init /\ [][FullNext]_vars
 Spec == Init /\ [][Next]_vars
-FairSpec == Spec /\ \A t \in 0..4 : WF_vars(t \in Thr /\ Step(t, MOf))
+\* liveness is checked on the unreduced next-state relation
+FairSpec == FullSpec /\ \A t \in 0..4 : WF_vars(t \in Thr /\ Step(t, MOf))
 
 \* hide the ghost event from the state identity
 View == <<cfg, ms, pc, L, H>>
